@@ -59,6 +59,19 @@ def run(tier, rep):
         total += acc + [r for r in res2 if 'crashed' in r or r['port_err'] == 0]
         if tier == 'quick':
             break
+    # ---- the edge coverage again under squeezed default streams on the sanitizer build (loops that keep turning fill the
+    #      particle list, the shell-vacancy counters and the work arrays further than any fair stream does)
+    squeezes = ['0.5,1'] if tier == 'quick' else dxlib.SQUEEZES
+    for sq in squeezes:
+        rs, ds = dxlib.run_dx('asan', ['bkg %s' % n for n in dxlib.bkg_all()] + ([] if tier == 'quick' else c02.grid()), 'c08s', 'A', 'ref,inv', api='genbbsub', deadline=deadline, timeout=3000,
+                              extra=['--squeeze', sq, '--horizon', '6000' if tier == 'quick' else '30000'])
+        pid2key = {str(r.get('pid')): r['key'] for r in rs if 'pid' in r}
+        for k, v in parse_san_logs(ds, pid2key).items():
+            logs.setdefault(k, v)
+        for r in rs:
+            r['squeeze_pass'] = sq
+        total += [r for r in rs if 'crashed' in r or r['port_err'] == 0]
+    rep.coverage['squeezed_default_streams'] = list(squeezes)
     # ---- uninitialised automatic variables: neither sanitizer sees them and the optimiser usually papers over them (it
     #      substitutes the value of another path for the undefined one). On an unoptimised build with every automatic
     #      variable pre-filled with a byte pattern such a read yields an absurd value, which the comparison with the
